@@ -254,6 +254,21 @@ int cmd_c14(int argc, char **argv) {
     fclose(f); free(buf);
     return 0;
   }
+  if (argc >= 2 && strcmp(argv[0], "grow") == 0) {
+    /* one long history: a user array grown far beyond the capacity of the built-in collection (which is a limit of that collection only),
+     * then files read into it, an audit and look-ups */
+    int target = atoi(argv[1]); if (target > 900) target = 900;
+    static char *lines[1024]; int n = 0; char tmp[256]; int ids[1024]; int nid = 0;
+    hist_id = 3000000;
+    snprintf(tmp, sizeof tmp, "I 1 0"); lines[n++] = strdup(tmp);
+    for (int i = 0; i < target; i++) { ids[nid] = random_entry(1000000); snprintf(tmp, sizeof tmp, "A 1 %d", ids[nid]); nid++; lines[n++] = strdup(tmp); if (i % 100 == 99) { snprintf(tmp, sizeof tmp, "D 1"); lines[n++] = strdup(tmp); } }
+    for (int f = 0; f < 3; f++) { int k = 4; int o = snprintf(tmp, sizeof tmp, "R 1 %d 0 %d", f == 1 ? 2 : 0, k); for (int i = 0; i < k; i++) o += snprintf(tmp + o, sizeof tmp - o, " %d", random_entry(1000000)); lines[n++] = strdup(tmp); }
+    snprintf(tmp, sizeof tmp, "D 1"); lines[n++] = strdup(tmp);
+    for (int i = 0; i < 4; i++) { snprintf(tmp, sizeof tmp, "G 1 %d %d", ids[(i * 211) % nid], i); lines[n++] = strdup(tmp); }
+    snprintf(tmp, sizeof tmp, "X 1"); lines[n++] = strdup(tmp);
+    run_history(lines, n); for (int i = 0; i < n; i++) free(lines[i]);
+    return 0;
+  }
   if (argc >= 3 && strcmp(argv[0], "rand") == 0) {
     int nh = atoi(argv[1]), maxlen = atoi(argv[2]);
     for (int h = 0; h < nh; h++) {
